@@ -67,7 +67,8 @@ CHECKS = {
           "the format's closed form; every stream read of the reader is length-checked before use with the mismatch edge "
           "returning only errors; reader limit = writer's last threshold; literal classes mirror; pairs written marker-first-"
           "rest; every chunk the serialising iterator yields is the checked table's result, a replayed payload of the "
-          "allocator's own atom bytes, or the constant pair marker (no second, unchecked atom encoder). Decides these structural "
+          "allocator's own atom bytes, or the constant pair marker (no second, unchecked atom encoder); each chunk is written to "
+          "the stream in the iteration that produced it; the reader accepts no wider length prefix than clvmr's. Decides these structural "
           "clauses for every atom length at once (tests only sample lengths).",
   "note": "Not decided: byte-identity with clvmr::serde for all atoms and acceptance-set equality with the consensus "
           "deserialiser. A table-driven rewrite of the writer is reported as anchor-lost (accepted cost, stated in DESIGN).",
@@ -145,7 +146,8 @@ CHECKS = {
   "text": "Pairing rule read => record decided on every path of the preprocessor's MIR (each read_new_file call is "
           "self-recording or dominated in every caller by a recorder on the same include description; recorder skip "
           "edges classified), who-may-read, first-match shape of the resolver loop, and the listing's only filter "
-          "being the `*` pseudo-file predicate, every success return of the listing passing through the frontend, and the "
+          "being the `*` pseudo-file predicate, recorder and consumer resolving a name through the same reader, every success "
+          "return of the listing passing through the frontend, and the "
           "classic reader's search list being built in search-path order. Found F2 (embed-file unlisted), repaired by a fix: commit.",
   "note": "Scope: the modern preprocessor (all dialect sigils and the listing itself) plus the order of the classic search list. "
           "The classic `_read` operator's own resolution loop is CLVM data (stage_2 reader is Rust: first-match walk not decided). Trusts rustc MIR construction; value flow is local-level.",
